@@ -192,6 +192,9 @@ func c10(c *Ctx) {
 			}
 			cl := client.NewWithPassword("testuser1", realm, "passwordvalue", cfg, client.DisablePAFXFAST(true))
 			if err := cl.Login(); err != nil {
+				mu.Lock()
+				c.Check(false, "login succeeds against a conformant KDC", "login-fails", err.Error(), nil)
+				mu.Unlock()
 				return
 			}
 			idOf := map[string]int{}
@@ -211,6 +214,9 @@ func c10(c *Ctx) {
 					// a destroyed client has no credentials: make a new login to continue the history
 					cl = client.NewWithPassword("testuser1", realm, "passwordvalue", cfg, client.DisablePAFXFAST(true))
 					if err := cl.Login(); err != nil {
+						mu.Lock()
+						c.Check(false, "login succeeds against a conformant KDC", "login-fails", err.Error(), nil)
+						mu.Unlock()
 						return
 					}
 					jops = append(jops, jv.L(jv.I(1)))
@@ -328,6 +334,9 @@ func c10(c *Ctx) {
 			}
 			cl := client.NewWithPassword("testuser1", realm, "passwordvalue", cfg, client.DisablePAFXFAST(true))
 			if err := cl.Login(); err != nil {
+				mu.Lock()
+				c.Check(false, "login succeeds against a conformant KDC", "login-fails", err.Error(), nil)
+				mu.Unlock()
 				return
 			}
 			type chk struct {
